@@ -493,8 +493,8 @@ func (vfs *MemFS) MkdirAll(path string, perm fs.FileMode) error {
 		return &fs.PathError{Op: op, Path: path, Err: vfs.err.PermDenied}
 	}
 
-	if parent.children[pi.Part()] != nil {
-		// The entry was created since the path was resolved : resolve it again.
+	if vfs.isNotExist(err) && parent.children[pi.Part()] != nil {
+		// The missing entry was created since the path was resolved : resolve it again.
 		parent.mu.Unlock()
 
 		return vfs.MkdirAll(path, perm)
